@@ -13,7 +13,7 @@ structure RuleText where
   E : Nat
 
 structure St where
-  now : Nat := 0
+  now : Nat := 1900000000000   -- every case starts here (the Go harness resets its virtual clock to it)
   res : List (String × Res × RuleText) := []
 
 /-- binary64 bit pattern of a finite non-negative float ↦ `(m, E)` with value `m / 2^E` -/
